@@ -712,9 +712,12 @@ func VisitWithTypeInfo(ttypeInfo typeInfo.TypeInfoI, visitorOpts *VisitorOptions
 				fn := GetVisitFn(visitorOpts, node.GetKind(), false)
 				if fn != nil {
 					action, result := fn(p)
-					if action == ActionUpdate {
+					if action != ActionNoChange {
+						// The traversal will not call leave for this node
+						// (skip, break) or continues with a replacement
+						// (update): keep the type stacks balanced.
 						ttypeInfo.Leave(node)
-						if isNode(result) {
+						if action == ActionUpdate && isNode(result) {
 							if result, ok := result.(ast.Node); ok {
 								ttypeInfo.Enter(result)
 							}
